@@ -217,8 +217,8 @@ func (f *FuncCtx) readGlobal(st *State, v *types.Var) Term {
 
 // define introduces a fresh constant equal to t when t is large, to keep terms small.
 func (f *FuncCtx) define(st *State, hint string, t Term) Term {
-	if len(t.S) < 80 {
-		return t
+	if len(t.S) < 80 || (t.Sort == SStr && len(t.S) < 4000) {
+		return t // strings stay inline: concatenations are normalised syntactically (right-nested)
 	}
 	c := f.fresh(hint, t.Sort)
 	st.assume("(= " + c + " " + t.S + ")")
